@@ -451,6 +451,11 @@ class World:
         except Exception:  # noqa: BLE001
             pass
         logging.getLogger().removeHandler(self.logtap)
+        # loggers are process-global: drop handlers this world's pyscript attached (eg a Jupyter session's stdout handler)
+        for lname, lg in list(logging.Logger.manager.loggerDict.items()):
+            if lname.startswith("custom_components.pyscript.") and isinstance(lg, logging.Logger):
+                for h in list(lg.handlers):
+                    lg.removeHandler(h)
         sys.unraisablehook = self._old_unraisable
         try:
             self._warn_cm.__exit__(None, None, None)
